@@ -406,6 +406,12 @@ class Eraser:
             Re = self.erase_result(R)
             self.hooks.append({'name': name, 'R': R, 'A': args[1:], 'R_erased': Re, 'span': payload(e)['span']})
             hi = len(self.hooks) - 1
+            if kind(R) == 'Call':
+                cc = payload(R)['callee']
+                if not is_lazy(cc) and cc.get('_v') == 'Expr' and kind(cc['_0']) == 'Member' and is_temp_ident(payload(cc['_0'])['obj']):
+                    fr = self.raw.get(temp_name(payload(cc['_0'])['obj']))
+                    if fr is not None and kind(fr) == 'Member' and payload(fr)['prop'].get('_v') == 'Ident':
+                        self.hooks[hi]['tag'] = payload(fr)['prop']['_0']['sym']
             callee = payload(e)['callee']['_0']
             self.inj.append((payload(e)['span'], 'hook-call', hi))
             self.inj.append((payload(callee)['span'], 'hook-callee', hi))
@@ -429,7 +435,10 @@ class Eraser:
         if kind(R) != 'Bin' or tree_eq(payload(R)['span'], a['span'], ignore=set()) is not True:
             return None
         # process the injected sequence / hook normally (records temps and the hook), then rebuild `left += right`
+        nh = len(self.hooks)
         erased_rhs = self.erase(rhs)
+        if len(self.hooks) > nh:
+            self.hooks[-1]['tag'] = '+='
         if kind(erased_rhs) != 'Bin':
             return None
         pe = payload(erased_rhs)
@@ -1569,4 +1578,71 @@ def check_C09_spans(in_view, out_view, er):
         allowed.add(span_key(er.hooks[hi]['span']))
         if k not in allowed:
             out.append(Violation('C09', 'span/injected-%s-span-from-elsewhere' % what, True, 'injected %s node carries span %s, the instrumented expression has %s' % (what, k, sorted(allowed)[:4])))
+    return out
+
+
+# ------------------------------------------------------------------ C15: debug breakdown by tag
+
+def hook_tag(er, h):
+    """the telemetry tag the property prescribes for a hook: `+`, `+=`, `Tpl`, or the method's *source* name"""
+    if h.get('tag'):
+        return h['tag']
+    R = h['R']
+    k = kind(R)
+    if k == 'Bin':
+        return '+'
+    if k == 'Tpl':
+        return 'Tpl'
+    if k == 'Call':
+        c = payload(R)['callee']
+        if is_lazy(c) or c.get('_v') != 'Expr':
+            return None
+        callee = c['_0']
+        if kind(callee) == 'Ident':
+            return payload(callee)['sym']
+        if kind(callee) == 'Member':
+            F = payload(callee)['obj']
+            if is_temp_ident(F):
+                fr = er.raw_at_hook.get(id(h)) if hasattr(er, 'raw_at_hook') else None
+                fr = fr if fr is not None else er.raw.get(temp_name(F))
+                if fr is not None and kind(fr) == 'Member' and payload(fr)['prop'].get('_v') == 'Ident':
+                    return payload(fr)['prop']['_0']['sym']
+    return None
+
+
+def check_C15_debug(er, status_view, out_view=None):
+    out = []
+    dup = ':duplicated-hook-site' if (out_view is not None and duplicated_hook_sites(out_view)) else ''
+    tel = status_view['telemetry']
+    if tel.get('_v') != 'Debug':
+        return out
+    dbg = tel['_0']['propagation_debug']
+    setv = dbg['_fields'][0] if isinstance(dbg, dict) and '_fields' in dbg else None
+    if setv is None:
+        return out
+    keys = [k.s for k in setv.keys]
+    vals = list(setv.vals)
+    tags = [hook_tag(er, h) for h in er.hooks]
+    if any(t is None for t in tags):
+        out.append(Violation('C15', 'debug/hook-with-unknown-tag', True, ''))
+        return out
+    total = 0
+    for k, v in zip(keys, vals):
+        cnt = 0
+        for t in tags:
+            c = leaf_eq(t, k)
+            if c is True:
+                cnt = cnt + 1
+            elif c is not False:
+                cnt = cnt + z3.If(c, 1, 0)
+        c = leaf_eq(v, cnt) if not isinstance(cnt, z3.ExprRef) else (cnt == (v if isinstance(v, z3.ExprRef) else z3.IntVal(v)))
+        if c is not True:
+            out.append(Violation('C15', 'debug/tag-count-differs' + dup, neg(c), 'tag %s reported %s, hooks with that tag: %s' % (k, v, cnt)))
+    for t in tags:
+        alts = [leaf_eq(t, k) for k in keys]
+        if any(a is True for a in alts):
+            continue
+        alts = [a for a in alts if a is not False]
+        c = z3.Or(alts) if alts else False
+        out.append(Violation('C15', 'debug/hook-tag-missing-from-breakdown' + dup, neg(c), 'no entry for tag %s' % (t,)))
     return out
